@@ -113,6 +113,20 @@ CountOrigin(n, name) ==
                 + SumSeq([i \in 1..Len(x.c) |-> Cnt(x.c[i])])
   IN Cnt(n)
 
+(* origin marks of the names a sequence binds are checked at that sequence and then dropped:  *)
+(* an inner function may legitimately reuse the same names in its own scope                   *)
+RECURSIVE ClearNames(_, _)
+ClearNames(n, names) ==
+  [n EXCEPT !.o = SelectSeq(@, LAMBDA x : x \notin names),
+            !.c = [i \in 1..Len(n.c) |-> ClearNames(n.c[i], names)]]
+
+CheckConsumed(r, names) ==
+  LET ns == {names[i] : i \in 1..Len(names)} IN
+  IF ns = {} THEN r
+  ELSE IF \E nm \in ns : CountOrigin(r, nm) # 1
+       THEN [ClearNames(r, ns) EXCEPT !.bad = "an injected temporary is not consumed exactly once"]
+       ELSE ClearNames(r, ns)
+
 -----------------------------------------------------------------------------
 (* C03, static half: the argument list of a hook call against the operands of the         *)
 (* expression it wraps.  Result "" = faithful; "dev:<tag>" = a named deviation;            *)
@@ -143,10 +157,16 @@ ArgsAre(as, es) ==
 ExpectedOfArgs(args) == [i \in 1..Len(args) |-> <<args[i].c[1], IsSpreadArg(args[i])>>]
 
 (* array elements of  .apply(this, [e1, ..])  ; holes make the list unusable *)
+UndefinedIdent == [t |-> "Identifier", v |-> "undefined", a |-> "", c |-> <<>>, id |-> 0]
 ApplyElems(arr) == [i \in 1..Len(arr.c[1].c) |->
                       IF arr.c[1].c[i].t = "_arg"
                       THEN <<arr.c[1].c[i].c[1], IsSpreadArg(arr.c[1].c[i])>>
-                      ELSE <<arr.c[1].c[i], FALSE>>]
+                      ELSE <<UndefinedIdent, FALSE>>]      \* a hole is passed as undefined
+
+DevWhys == {"dev:D7b-nonconstant-sum-operand-omitted", "dev:D18-regexp-literal-operand-evaluated-twice"}
+
+\* a regular-expression literal creates a new object each time it is evaluated
+HasRegExp(es) == \E i \in 1..Len(es) : StripParen(es[i][1]).t = "RegExpLiteral"
 
 \* is some expected operand a non-constant '+' left in place (plus operator disabled)?
 HasRawSum(es) == \E i \in 1..Len(es) :
@@ -156,9 +176,12 @@ HasRawSum(es) == \E i \in 1..Len(es) :
 HookWhy(n, env) ==
   LET x == StripParen(HookWrapped(n))
       as == HookArgs(n)
-      Judge(es) == IF ArgsAre(as, es) THEN ""
+      Judge(es) == IF ArgsAre(as, es)
+                   THEN IF HasRegExp(es) THEN "dev:D18-regexp-literal-operand-evaluated-twice" ELSE ""
                    ELSE IF HasRawSum(es) /\ Len(as) < Len(es) THEN "dev:D7b-nonconstant-sum-operand-omitted"
                    ELSE "hook arguments differ from the operands of the wrapped operation"
+      Either(w1, w2) == IF w1 = "" \/ w2 = "" THEN ""
+                        ELSE IF w1 \in DevWhys THEN w1 ELSE IF w2 \in DevWhys THEN w2 ELSE w1
   IN
   CASE x.t = "BinaryExpression" /\ x.v = "+" ->
          Judge(<< <<x.c[1], FALSE>>, <<x.c[2], FALSE>> >>)
@@ -177,6 +200,13 @@ HookWhy(n, env) ==
             /\ StripParen(Args(x)[2].c[1]).t = "ArrayExpression"
          THEN Judge(<< <<x.c[1].c[1], FALSE>>, <<Args(x)[1].c[1], FALSE>> >>
                     \o ApplyElems(StripParen(Args(x)[2].c[1])))
+         ELSE IF Len(Args(x)) = 2 /\ IsSpreadArg(Args(x)[1]) /\ ~IsSpreadArg(Args(x)[2])
+                 /\ StripParen(Args(x)[2].c[1]).t = "ArrayExpression"
+         THEN \* M.apply(...s, [e...]): which value is the receiver and which the argument list is
+              \* unknowable statically; both readings of the array are accepted
+              Either(Judge(<< <<x.c[1].c[1], FALSE>> >> \o ExpectedOfArgs(Args(x))),
+                     Judge(<< <<x.c[1].c[1], FALSE>>, <<Args(x)[1].c[1], TRUE>> >>
+                           \o ApplyElems(StripParen(Args(x)[2].c[1]))))
          ELSE Judge(<< <<x.c[1].c[1], FALSE>> >> \o ExpectedOfArgs(Args(x)))
     [] x.t = "CallExpression" /\ x.c[1].t = "Identifier" ->
          \* m(a...)  ->  (m, undefined, a...)
@@ -196,12 +226,10 @@ ErKids(n, env) == [i \in 1..Len(n.c) |-> Er(n.c[i], env)]
 (* names = injected names bound by this very sequence (each must be consumed exactly once) *)
 ErSeq(elems, env, kept, names) ==
   IF elems = <<>> THEN
-    LET r == CASE Len(kept) = 1 -> kept[1]
-               [] Len(kept) = 0 -> Bad("sequence of temporaries without a value")
-               [] OTHER -> CN("SequenceExpression", "", "", <<CN("_L", "", "", kept, 0)>>, 0)
-        miss == {nm \in {names[i] : i \in 1..Len(names)} : CountOrigin(r, nm) # 1}
-    IN IF miss = {} THEN r
-       ELSE [r EXCEPT !.bad = "an injected temporary is not consumed exactly once"]
+    CheckConsumed(CASE Len(kept) = 1 -> kept[1]
+                    [] Len(kept) = 0 -> Bad("sequence of temporaries without a value")
+                    [] OTHER -> CN("SequenceExpression", "", "", <<CN("_L", "", "", kept, 0)>>, 0),
+                  names)
   ELSE
     LET e == StripParen(Head(elems)) IN
     IF IsTempAssign(e, env)
@@ -276,11 +304,7 @@ ErSpine(n, env, g) ==
          \* (t1 = g, t2 = t1.m, hook(t2.call(t1, ..), ..)) : bindings, then the spine continues
          LET RECURSIVE Go(_, _, _)
              Go(elems, e2, names) ==
-               IF Len(elems) = 1 THEN
-                 LET r == ErSpine(Head(elems), e2, g)
-                     miss == {nm \in {names[i] : i \in 1..Len(names)} : CountOrigin(r, nm) # 1}
-                 IN IF miss = {} THEN r
-                    ELSE [r EXCEPT !.bad = "an injected temporary is not consumed exactly once"]
+               IF Len(elems) = 1 THEN CheckConsumed(ErSpine(Head(elems), e2, g), names)
                ELSE LET e == StripParen(Head(elems)) IN
                     IF IsTempAssign(e, e2)
                     THEN Go(Tail(elems), Bind(e2, e.c[1].v, e.c[2], Er(e.c[2], e2)), Append(names, e.c[1].v))
